@@ -154,6 +154,27 @@ fn run_poly(ctx: &mut RunCtx) -> Result<(), Violation> {
         }
         trim(q)
     };
+    // a root of unity of the domain the operand would be interpolated on
+    let root = {
+        let n = la.max(1).next_power_of_two() as u64;
+        match domain_for(n) {
+            Some((_, omega)) => pow_u64(omega, w.below(n)),
+            None => Fr::one(),
+        }
+    };
+    // b (X - z), by schoolbook arithmetic
+    let exact_dividend: Vec<Fr> = {
+        let mut r = vec![Fr::zero(); tb.len() + 1];
+        for (i, c) in tb.iter().enumerate() {
+            r[i + 1] += *c;
+            r[i] -= z * *c;
+        }
+        if tb.is_empty() {
+            Vec::new()
+        } else {
+            r
+        }
+    };
     let run_all = |env: &EnvCfg| -> Result<Vec<Vec<Fr>>, String> {
         guarded(|| {
             under(env, || {
@@ -166,13 +187,15 @@ fn run_poly(ctx: &mut RunCtx) -> Result<(), Violation> {
                     kernels::poly_scale(&a, &sc),
                     kernels::poly_mul(&a, &b),
                     kernels::poly_ruffini(&a, z),
-                    vec![kernels::poly_evaluate(&a, &z), kernels::poly_evaluate(&a, &Fr::one()), kernels::poly_evaluate(&b, &Fr::zero())],
+                    vec![kernels::poly_evaluate(&a, &z), kernels::poly_evaluate(&a, &Fr::one()), kernels::poly_evaluate(&b, &Fr::zero()), kernels::poly_evaluate(&a, &root)],
                     inv,
+                    // exact division: (q (X - z)) / (X - z) = q
+                    kernels::poly_ruffini(&exact_dividend, z),
                 ]
             })
         })
     };
-    let names = ["polynomial addition", "polynomial subtraction", "scaled addition (p += s*q)", "scalar multiplication", "polynomial multiplication", "division by a linear factor (ruffini)", "evaluation", "batch inversion"];
+    let names = ["polynomial addition", "polynomial subtraction", "scaled addition (p += s*q)", "scalar multiplication", "polynomial multiplication", "division by a linear factor (ruffini)", "evaluation", "batch inversion", "exact division by a linear factor"];
     let out = run_all(&canon).map_err(|p| Violation::new("panic", format!("polynomial kernel panicked (lengths {} {}): {}", la, lb, p)))?;
     ctx.st.steps += 8;
     for env in &envs {
@@ -221,8 +244,12 @@ fn run_poly(ctx: &mut RunCtx) -> Result<(), Violation> {
     }
     // evaluation
     ctx.st.eval(sig ^ 0xd6, true);
-    if out[6] != vec![horner(&ta, z), horner(&ta, Fr::one()), at(&tb, 0)] {
-        return Err(def(6, "value differs from Horner evaluation"));
+    if out[6] != vec![horner(&ta, z), horner(&ta, Fr::one()), at(&tb, 0), horner(&ta, root)] {
+        return Err(def(6, "value differs from Horner evaluation (at a random point, 1, 0 or a root of unity)"));
+    }
+    ctx.st.eval(sig ^ 0xd8, true);
+    if trim(out[8].clone()) != tb {
+        return Err(def(8, "(q (X - z)) / (X - z) is not q"));
     }
     // batch inversion: every non-zero entry inverted, zeros left
     ctx.st.eval(sig ^ 0xd7, true);
